@@ -46,14 +46,14 @@ def _minmax(v, lo, hi):
     return v
 
 
-def conv_int(num_digits=None, min=None, max=None):
+def conv_int(num_digits=None, min=None, max=None, _base=10):
     def f(s):
         if num_digits is not None and len(s) != num_digits:
             return None
         if s != s.strip():
             return None
         try:
-            v = int(s)
+            v = int(s, _base)
         except ValueError:
             return None
         return _minmax(v, min, max)
@@ -114,10 +114,23 @@ def conv_rest():
     return f
 
 
-CONVERTERS = {          # name -> (factory, consumes the remaining segments)
+def conv_hexint(num_digits=None, min=None, max=None):
+    return conv_int(num_digits, min, max, _base=16)
+
+
+def conv_veto_alt():
+    def f(s):
+        return None if s.startswith('o') else 'W:' + s
+    return f
+
+
+# A converter table belongs to ONE router: the built-ins plus what was registered on that router.
+CONVERTERS = {          # name -> (factory, consumes the remaining segments): the check's standard profile
     'int': (conv_int, False), 'float': (conv_float, False), 'uuid': (conv_uuid, False),
     'dt': (conv_dt, False), 'path': (conv_path, True), 'veto': (conv_veto, False), 'rest': (conv_rest, True),
 }
+# the check's alternative profile: 'int' and 'veto' replaced on that router, 'hex' added
+CONVERTERS_ALT = dict(CONVERTERS, int=(conv_hexint, False), veto=(conv_veto_alt, False), hex=(conv_hexint, False))
 
 
 def parse_args(argstr):
@@ -137,7 +150,8 @@ def parse_args(argstr):
 class Seg:
     __slots__ = ('raw', 'kind', 'parts', 'fields', 'regex', 'multi')
 
-    def __init__(self, raw):
+    def __init__(self, raw, table=None):
+        table = CONVERTERS if table is None else table
         self.raw = raw
         self.parts = []          # ('lit', text) | ('field', name, convname, argstr)
         pos = 0
@@ -164,9 +178,9 @@ class Seg:
             _, name, cname, argstr = p
             conv = None
             if cname is not None:
-                if cname not in CONVERTERS:
-                    raise Unparseable('converter %r' % cname)
-                factory, multi = CONVERTERS[cname]
+                if cname not in table:
+                    raise Unparseable('converter %r is not registered on this router' % cname)
+                factory, multi = table[cname]
                 a, kw = parse_args(argstr)
                 try:
                     conv = factory(*a, **kw)
@@ -211,14 +225,16 @@ class Trace:
 
 
 class Model:
-    def __init__(self):
+    def __init__(self, table=None):
+        self.table = dict(CONVERTERS if table is None else table)
         self.roots = []
         self.templates = []      # accepted, in order
+        self.last_resource = None
         self.trace = Trace()
 
     # -- building
     def add(self, template, resource):
-        segs = [Seg(s) for s in split_template(template)]      # may raise Unparseable (before any change)
+        segs = [Seg(s, self.table) for s in split_template(template)]      # may raise Unparseable (before any change)
         nodes = self.roots
         node = None
         for seg in segs:
@@ -252,7 +268,9 @@ class Model:
         """-> (resource, template, params) or None."""
         self._segs = path[1:].split('/') if path.startswith('/') else path.split('/')
         self.trace = Trace()
-        return self._walk(self.roots, 0, {})
+        r = self._walk(self.roots, 0, {})
+        self.last_resource = None if r is None else r[0]
+        return r
 
     def _walk(self, nodes, i, params):
         segs = self._segs
